@@ -790,6 +790,8 @@ impl Handler {
                 self.send(node_address.clone(), auth_packet).await;
 
                 let id = RequestId::random();
+                #[cfg(feature = "verif-hooks")]
+                verif_hooks::record_internal_request_id(&id);
                 let request = RequestBody::FindNode { distances: vec![0] };
                 session.awaiting_enr = Some(id.clone());
                 if let Err(e) = self
